@@ -447,3 +447,82 @@ def bounds_as_constraint(ctx):
             [('base-deco', ctx.func(D.DECORATORS['base'])), ('NM-deco', ctx.func(D.DECORATORS['NM']))]
     for key, m in sites:
         D.check_coupling(ctx, key, m)
+
+
+@rule('C02.h', min_instances=1)
+def simplex_best_vertex_is_published_constrained(ctx):
+    """Nelder-Mead, every path after generation 0 (roles from the data flow): the array published as self.population has had its row 0 replaced by constraints(row 0) AFTER the last statement that rebinds or reorders the array - the accepted vertex is kept raw while its energy is that of its constrained image, so once the sort brings it to the front the reported best would lie outside the box / off the constraint"""
+    f = ctx.func('mystic.scipy_optimize:NelderMeadSimplexSolver._Step')
+    sn = selfname_of(f)
+    pubs = [s for s in stmts_of(f.node) if isinstance(s, ast.Assign) and any(is_self_attr(tg, 'population', sn) for tg in s.targets) and isinstance(s.value, ast.Name)]
+    ctx.need(pubs, 'NelderMeadSimplexSolver._Step no longer publishes a local array as self.population')
+    simv = pubs[-1].value.id
+    cons = set()
+    for s in stmts_of(f.node):
+        if isinstance(s, ast.Assign) and len(s.targets) == 1 and isinstance(s.targets[0], ast.Name) and \
+                any(isinstance(x, ast.Attribute) and x.attr == '_constraints' for x in ast.walk(s.value)):
+            cons.add(s.targets[0].id)
+    ctx.need(cons, 'no local holds the (coupled) constraints in NelderMeadSimplexSolver._Step')
+
+    def touches(st):
+        for n in ast.walk(st):
+            if isinstance(n, ast.Name) and n.id == simv and isinstance(n.ctx, ast.Store):
+                return 'rebind'
+            if isinstance(n, ast.Subscript) and isinstance(n.ctx, ast.Store):
+                base = n
+                while isinstance(base, ast.Subscript):
+                    base = base.value
+                if isinstance(base, ast.Name) and base.id == simv:
+                    return 'store'
+        return None
+
+    def is_row0_constrained(st):
+        if not (isinstance(st, ast.Assign) and len(st.targets) == 1):
+            return False
+        tg = T.term(st.targets[0])
+        row0 = ('sub', ('name', simv), T.num(0))
+        if tg != row0:
+            return False
+        v = T.term(st.value)
+        return any(isinstance(x, tuple) and x and x[0] == 'call' and x[1][0] == 'name' and x[1][1] in cons and x[2] == (row0,) for x in T.subterms(v))
+
+    def rel(n):
+        return isinstance(n, (ast.Assign, ast.AugAssign)) and (touches(n) is not None or n in pubs)
+    paths = [p for p in enumerate_paths(f.node, relevant=rel, unroll=(0, 1)) if p.exit != 'raise']
+    ctx.stats['paths_enumerated'] += len(paths)
+    S = ('name', sn)
+    n_later = 0
+    bad = None
+    for p in paths:
+        gen0 = None
+        clean = False
+        infeasible = False
+        for e in p.events:
+            if infeasible:
+                break
+            if e[0] == 'cond':
+                c = T.simp(T.term(e[1]))
+                tr = e[2]
+                while c[0] == 'not':
+                    c, tr = c[1], not tr
+                if c == ('call', ('name', 'len'), (('attr', S, '_stepmon'),), ()):
+                    if gen0 is None:
+                        gen0 = not tr
+                    elif gen0 != (not tr):
+                        infeasible = True      # the log cannot be empty and non-empty within one step (no record is made before)
+            elif e[0] == 'stmt':
+                st = e[1]
+                if st in pubs:
+                    if gen0 is False and not infeasible:
+                        n_later += 1
+                        if not clean:
+                            bad = p
+                    continue
+                if is_row0_constrained(st):
+                    clean = True
+                elif touches(st):
+                    clean = False
+    ctx.need(n_later >= 1, 'NelderMeadSimplexSolver._Step: no path after generation 0 publishes the simplex')
+    ctx.check(bad is None, 'NelderMeadSimplexSolver._Step#best-vertex', '%s[0] = constraints(%s[0]) is the last change of the array before it is published (%d paths)' % (simv, simv, n_later),
+              'the simplex is published with a row 0 that is not known to be its constrained image: the array is rebound / reordered after the last %s[0] = constraints(%s[0]) on path %s'
+              % (simv, simv, bad.describe(6) if bad else ''), f, pubs[-1])
